@@ -16,6 +16,9 @@ Bad(r) ==
          IF r.accept # (r.lo <= HashSlot(r.k) /\ HashSlot(r.k) <= r.hi) THEN {"C11_SlotFilterDecision"} ELSE {}
     [] r.site = "SlotTag" ->           \* "{tag}" must hash to the slot it was chosen for
          IF HashSlot(<<LB>> \o r.k \o <<RB>>) # r.slot THEN {"C11_SlotTagNotInSlot"} ELSE {}
+    [] r.site = "ChosenKey" ->         \* a key picked for a list of slot ranges exists and hashes into one of them
+         IF r.k = <<>> THEN {"C11_NoKeyForSlotRanges"}
+         ELSE IF ~\E i \in 1..Len(r.lo) : r.lo[i] <= HashSlot(r.k) /\ HashSlot(r.k) <= r.hi[i] THEN {"C11_ChosenKeyOutsideItsSlots"} ELSE {}
     [] OTHER -> {"C11_UnknownSite"}
 
 Init == l = 1
